@@ -134,6 +134,9 @@ mut('c01-axpy-int-revert', 'C01', 'odl/space/npy_tensors.py',
 mut('c01-setzero-revert', 'C01', 'odl/space/npy_tensors.py',
     "        if a == 0 and b == 0:\n            # Zero assignment as in",
     "        if a == 0 and b == 0 and size < 0:\n            # Zero assignment as in")
+mut('c01-assign-copy-revert', 'C01', 'odl/space/npy_tensors.py',
+    "        elif a == 1 and b == 0:\n            # Plain copy without",
+    "        elif a == 1 and b == 0 and size < 0:\n            # Plain copy without")
 
 # ---- C03 -----------------------------------------------------------------
 mut('c03-default-ip-no-assign', 'C03', 'odl/operator/operator.py',
